@@ -115,29 +115,33 @@ fn module_of(c: &Case) -> String {
 }
 
 fn driver(c: &Case) -> String {
-    let a = c.addr;
     let mut s = String::from("\n#[allow(warnings)]\npub mod __verif_exec {\n    use super::*;\n    pub unsafe fn run() {\n");
-    match c.kind {
+    driver_part(&mut s, c.kind, c.ety, c.addr, "");
+    s.push_str("    }\n}\n");
+    s
+}
+
+/// statements that exercise one accessor; `sfx` selects `S{sfx}` / `E{sfx}` / `get_gv{sfx}` and suffixes the labels
+fn driver_part(s: &mut String, kind: &str, ety: usize, a: u64, sfx: &str) {
+    match kind {
         "struct_singleton" | "opaque_struct_singleton" => {
-            s.push_str(&format!("        crate::rt::map_data({a:#x}, 16);\n        let mut o1: S = core::mem::zeroed();\n        let mut o2: S = core::mem::zeroed();\n"));
-            s.push_str(&format!("        *({a:#x}usize as *mut u64) = 0;\n        crate::rt::begin(\"null\");\n        let r = S::get();\n        crate::rt::end(r.is_none() as u64, &[]);\n"));
+            s.push_str(&format!("        crate::rt::map_data({a:#x}, 16);\n        let mut o1: S{sfx} = core::mem::zeroed();\n        let mut o2: S{sfx} = core::mem::zeroed();\n"));
+            s.push_str(&format!("        *({a:#x}usize as *mut u64) = 0;\n        crate::rt::begin(\"null{sfx}\");\n        let r = S{sfx}::get();\n        crate::rt::end(r.is_none() as u64, &[]);\n"));
             for o in ["o1", "o2"] {
-                s.push_str(&format!("        *({a:#x}usize as *mut *mut S) = core::ptr::addr_of_mut!({o});\n        crate::rt::begin(\"{o}\");\n        let r: Option<&'static mut S> = S::get();\n        crate::rt::end(r.map(|x| x as *mut S as u64).unwrap_or(0), &[core::ptr::addr_of!({o}) as u64]);\n"));
+                s.push_str(&format!("        *({a:#x}usize as *mut *mut S{sfx}) = core::ptr::addr_of_mut!({o});\n        crate::rt::begin(\"{o}{sfx}\");\n        let r: Option<&'static mut S{sfx}> = S{sfx}::get();\n        crate::rt::end(r.map(|x| x as *mut S{sfx} as u64).unwrap_or(0), &[core::ptr::addr_of!({o}) as u64]);\n"));
             }
         }
         "enum_singleton" => {
             s.push_str(&format!("        crate::rt::map_data({a:#x}, 16);\n"));
             for v in ["A", "B", "C"] {
-                s.push_str(&format!("        *({a:#x}usize as *mut E) = E::{v};\n        crate::rt::begin(\"{v}\");\n        let r: E = E::get();\n        crate::rt::end(r as u64, &[E::{v} as u64]);\n"));
+                s.push_str(&format!("        *({a:#x}usize as *mut E{sfx}) = E{sfx}::{v};\n        crate::rt::begin(\"{v}{sfx}\");\n        let r: E{sfx} = E{sfx}::get();\n        crate::rt::end(r as u64, &[E{sfx}::{v} as u64]);\n"));
             }
         }
         _ => {
-            let rust_ty = ETYS[c.ety].0.replace("S", "crate::m::S").replace("E", "crate::m::E");
-            s.push_str(&format!("        crate::rt::map_data({a:#x}, 64);\n        crate::rt::begin(\"addr\");\n        let r: &'static mut {rust_ty} = get_gv();\n        crate::rt::end(r as *mut {rust_ty} as u64, &[core::mem::size_of::<{rust_ty}>() as u64]);\n"));
+            let rust_ty = ETYS[ety].0.replace("S", "crate::m::S").replace("E", "crate::m::E");
+            s.push_str(&format!("        crate::rt::map_data({a:#x}, 64);\n        crate::rt::begin(\"addr{sfx}\");\n        let r: &'static mut {rust_ty} = get_gv{sfx}();\n        crate::rt::end(r as *mut {rust_ty} as u64, &[core::mem::size_of::<{rust_ty}>() as u64]);\n"));
         }
     }
-    s.push_str("    }\n}\n");
-    s
 }
 
 /// numeric literals (decimal or hex, optional integer suffix) in a normalised token string
@@ -173,63 +177,240 @@ fn judge_text(c: &Case, text: &str) -> Option<(String, String)> {
         Ok(f) => f,
         Err(e) => return Some(("output_unreadable".into(), e)),
     };
-    let (f, want_out) = match c.kind {
-        "struct_singleton" | "opaque_struct_singleton" => (fi.method("S", "get"), "Option<&'static mut Self>".to_string()),
-        "enum_singleton" => (fi.method("E", "get"), "Self".to_string()),
-        _ => (fi.fns.iter().find(|f| f.name == "get_gv"), format!("&'static mut {}", ETYS[c.ety].1)),
+    judge_acc(&fi, text, c.kind, c.ety, c.addr, c.public, "")
+}
+
+/// one accessor: `S{sfx}::get`, `E{sfx}::get` or `get_gv{sfx}`
+fn judge_acc(fi: &synx::FileInfo, text: &str, kind: &str, ety: usize, addr: u64, public: bool, sfx: &str) -> Option<(String, String)> {
+    let (f, want_out) = match kind {
+        "struct_singleton" | "opaque_struct_singleton" => (fi.method(&format!("S{sfx}"), "get"), "Option<&'static mut Self>".to_string()),
+        "enum_singleton" => (fi.method(&format!("E{sfx}"), "get"), "Self".to_string()),
+        _ => (fi.fns.iter().find(|f| f.name == format!("get_gv{sfx}")), format!("&'static mut {}", ETYS[ety].1)),
     };
     let Some(f) = f else {
-        return Some(("accessor_missing".into(), format!("{}\n{text}", c.kind)));
+        return Some(("accessor_missing".into(), format!("{kind}{sfx}\n{text}")));
     };
     let norm = |s: &str| s.replace(' ', "");
     if f.output.as_deref().map(norm) != Some(norm(&want_out)) {
         return Some(("accessor_type_differs".into(), format!("expected `{want_out}`, emitted {:?}", f.output)));
     }
-    if f.public != c.public {
-        return Some(("accessor_visibility_differs".into(), format!("declared pub={}, emitted pub={}", c.public, f.public)));
+    if f.public != public {
+        return Some(("accessor_visibility_differs".into(), format!("declared pub={public}, emitted pub={}", f.public)));
     }
     let lits = literals(&f.body);
-    if lits != vec![c.addr] {
-        return Some(("accessor_address_literal_differs".into(), format!("declared {:#x}, literals in the accessor body: {lits:x?}\n{}", c.addr, f.body)));
+    if lits != vec![addr] {
+        return Some(("accessor_address_literal_differs".into(), format!("{kind}{sfx}: declared {addr:#x}, literals in the accessor body: {lits:x?}\n{}", f.body)));
     }
     // struct singletons go through one indirection, enum singletons and extern values through none
     let derefs_ptr_to_ptr = f.body.contains("*mut*mut Self") || f.body.contains("*mut *mut Self");
-    if c.kind.ends_with("struct_singleton") != derefs_ptr_to_ptr {
+    if kind.ends_with("struct_singleton") != derefs_ptr_to_ptr {
         return Some(("accessor_indirection_differs".into(), f.body.clone()));
     }
     None
 }
 
 fn judge_exec(c: &Case, recs: &[Record]) -> Option<(String, String)> {
-    match c.kind {
+    judge_exec_part(c.kind, c.addr, "", recs)
+}
+
+fn judge_exec_part(kind: &str, addr: u64, sfx: &str, recs: &[Record]) -> Option<(String, String)> {
+    let find = |l: &str| recs.iter().find(|r| r.label == format!("{l}{sfx}"));
+    let missing = |l: &str| Some(("accessor_run_incomplete".to_string(), format!("no record labelled {l}{sfx}")));
+    match kind {
         "struct_singleton" | "opaque_struct_singleton" => {
-            let n = recs.iter().find(|r| r.label == "null")?;
+            let Some(n) = find("null") else { return missing("null") };
             if n.ret != 1 {
                 return Some(("null_singleton_not_none".into(), "get() returned Some for a null pointer".into()));
             }
             for o in ["o1", "o2"] {
-                let r = recs.iter().find(|r| r.label == o)?;
+                let Some(r) = find(o) else { return missing(o) };
                 if r.ret != r.extra[0] {
-                    return Some(("singleton_points_elsewhere".into(), format!("{o}: get() returned {:#x}, the planted object is at {:#x}", r.ret, r.extra[0])));
+                    return Some(("singleton_points_elsewhere".into(), format!("{o}{sfx}: get() returned {:#x}, the planted object is at {:#x}", r.ret, r.extra[0])));
                 }
             }
             None
         }
         "enum_singleton" => {
             for v in ["A", "B", "C"] {
-                let r = recs.iter().find(|r| r.label == v)?;
+                let Some(r) = find(v) else { return missing(v) };
                 if r.ret != r.extra[0] {
-                    return Some(("enum_singleton_value_differs".into(), format!("{v}: get() returned {:#x}, stored {:#x}", r.ret, r.extra[0])));
+                    return Some(("enum_singleton_value_differs".into(), format!("{v}{sfx}: get() returned {:#x}, stored {:#x}", r.ret, r.extra[0])));
                 }
             }
             None
         }
         _ => {
-            let r = recs.iter().find(|r| r.label == "addr")?;
-            if r.ret != c.addr {
-                return Some(("extern_value_address_differs".into(), format!("get_gv() refers to {:#x}, declared {:#x}", r.ret, c.addr)));
+            let Some(r) = find("addr") else { return missing("addr") };
+            if r.ret != addr {
+                return Some(("extern_value_address_differs".into(), format!("get_gv{sfx}() refers to {:#x}, declared {addr:#x}", r.ret)));
             }
             None
+        }
+    }
+}
+
+// ---- thorough: two accessors in one module ------------------------------------------------
+
+/// (kind, extern value type selector)
+const MENU: &[(&str, usize)] = &[
+    ("struct_singleton", 0),
+    ("opaque_struct_singleton", 0),
+    ("enum_singleton", 0),
+    ("extern_value", 0),
+    ("extern_value", 1),
+    ("extern_value", 2),
+    ("extern_value", 3),
+    ("extern_value", 4),
+    ("extern_value", 5),
+    ("extern_value", 6),
+];
+
+#[derive(Clone, Debug)]
+struct Pair {
+    a: usize,
+    b: usize,
+    addr_a: u64,
+    addr_b: u64,
+    pub_a: bool,
+    pub_b: bool,
+    /// declare the second accessor's items before the first one's
+    swapped: bool,
+}
+
+fn pairs() -> Vec<Pair> {
+    let (x, y) = (EXEC_ADDRS[0] + 0xA00, EXEC_ADDRS[2] + 0xA00);
+    let mut out = vec![];
+    for a in 0..MENU.len() {
+        for b in 0..MENU.len() {
+            for (addr_a, addr_b) in [(x, y), (y, x), (x, x), (x, x + 8)] {
+                for (pub_a, pub_b) in [(true, true), (true, false), (false, true)] {
+                    for swapped in [false, true] {
+                        out.push(Pair { a, b, addr_a, addr_b, pub_a, pub_b, swapped });
+                    }
+                }
+            }
+        }
+    }
+    out
+}
+
+fn pair_items(kind: &str, ety: usize, addr: u64, public: bool, sfx: &str) -> Vec<Item> {
+    let mut s = TypeS::new(&format!("S{sfx}"));
+    s.fields = vec![FieldS::new("a", MTy::b("u64")), FieldS::new("b", MTy::b("u32")), FieldS::new("c", MTy::b("u32"))];
+    s.align = Some(8);
+    s.public = public;
+    let mut e = EnumS::new(&format!("E{sfx}"), "u32");
+    e.public = public;
+    e.copyable = public;
+    e.variants = vec![
+        VariantS { name: "A".into(), value: None, default: false, doc: vec![] },
+        VariantS { name: "B".into(), value: Some(7), default: false, doc: vec![] },
+        VariantS { name: "C".into(), value: Some(0x7fff_ffff), default: false, doc: vec![] },
+    ];
+    let mut items = vec![];
+    match kind {
+        "struct_singleton" => s.singleton = Some(addr as i128),
+        "opaque_struct_singleton" => {
+            s.singleton = Some(addr as i128);
+            s.fields = vec![];
+            s.align = None;
+        }
+        "enum_singleton" => e.singleton = Some(addr as i128),
+        _ => {}
+    }
+    items.push(Item::Type(s));
+    items.push(Item::Enum(e));
+    if kind == "extern_value" {
+        let t = match ety {
+            0 => MTy::b("u32"),
+            1 => MTy::b("u8").mptr(),
+            2 => MTy::b("u16").arr(4),
+            3 => MTy::user("S"),
+            4 => MTy::user("S").cptr(),
+            5 => MTy::user("E"),
+            _ => MTy::b("u64"),
+        };
+        items.push(Item::ExternValue { name: format!("gv{sfx}"), public, ty: t, address: Some(addr as i128) });
+    }
+    items
+}
+
+fn pair_module(p: &Pair) -> String {
+    let first = pair_items(MENU[p.a].0, MENU[p.a].1, p.addr_a, p.pub_a, "");
+    let second = pair_items(MENU[p.b].0, MENU[p.b].1, p.addr_b, p.pub_b, "2");
+    let items: Vec<Item> = if p.swapped { second.into_iter().chain(first).collect() } else { first.into_iter().chain(second).collect() };
+    Printer { style: NumStyle::Hex, reverse_type_attrs: false, docs_after_attrs: false }.module(&ModuleS::new("m").with(items))
+}
+
+fn run_pairs(rep: &mut Report, only_i: Option<usize>) {
+    let all = pairs();
+    let idxs: Vec<usize> = match only_i {
+        Some(i) => vec![i],
+        None => (0..all.len()).collect(),
+    };
+    let mut xcases = vec![];
+    let mut xown = vec![];
+    for ps in [4usize, 8] {
+        for &i in &idxs {
+            let p = &all[i];
+            let input = pipe::Input::single(pair_module(p));
+            let v = pipe::run(&input, ps);
+            rep.states += 1;
+            rep.traces += 1;
+            rep.evaluations += 1;
+            rep.transitions += 2;
+            rep.distinct_str(&format!("pair{}:{}:{:#x}:{:#x}", p.a, p.b, p.addr_a, p.addr_b));
+            let viol = match &v {
+                pipe::Verdict::Panic(m) => Some(("panic".to_string(), m.clone())),
+                pipe::Verdict::Ok(b) if !b.files.contains_key("m.rs") => Some(("no_output_file_for_the_module".to_string(), format!("files: {:?}", b.files.keys().collect::<Vec<_>>()))),
+                pipe::Verdict::Ok(b) => {
+                    let text = &b.files["m.rs"];
+                    let r = match synx::file_info(text) {
+                        Err(e) => Some(("output_unreadable".to_string(), e)),
+                        Ok(fi) => judge_acc(&fi, text, MENU[p.a].0, MENU[p.a].1, p.addr_a, p.pub_a, "").or_else(|| judge_acc(&fi, text, MENU[p.b].0, MENU[p.b].1, p.addr_b, p.pub_b, "2")),
+                    };
+                    if r.is_none() && ps == 8 {
+                        let mut files = b.files.clone();
+                        let mut d = String::from("\n#[allow(warnings)]\npub mod __verif_exec {\n    use super::*;\n    pub unsafe fn run() {\n");
+                        // the second accessor first, so that a shared location would be seen by the first one's checks
+                        d.push_str("        {\n");
+                        driver_part(&mut d, MENU[p.b].0, MENU[p.b].1, p.addr_b, "2");
+                        d.push_str("        }\n        {\n");
+                        driver_part(&mut d, MENU[p.a].0, MENU[p.a].1, p.addr_a, "");
+                        d.push_str("        }\n    }\n}\n");
+                        files.get_mut("m.rs").unwrap().push_str(&d);
+                        xcases.push(RCase::new(files));
+                        xown.push(i);
+                    }
+                    r
+                }
+                other => Some(("valid_input_rejected".to_string(), other.err_text())),
+            };
+            if let Some((key, detail)) = viol {
+                rep.violation(Violation { key, features: vec![format!("kind:pair:{}+{}", MENU[p.a].0, MENU[p.b].0)], input, ps, detail, locator: json!({"space": "pairs", "index": i, "ps": ps}) });
+            } else if i % 301 == 0 {
+                rep.sample(json!({"ps": ps, "input": input.render(), "verdict": v.class()}));
+            }
+        }
+    }
+    match run_cases(&xcases, "m::__verif_exec::run", 20) {
+        Err(e) => rep.machinery(format!("{e:#}")),
+        Ok(results) => {
+            for (k, r) in results.iter().enumerate() {
+                let i = xown[k];
+                let p = &all[i];
+                let viol = if !r.compile.is_empty() {
+                    Some((format!("driver_does_not_compile:{}", r.compile[0].code), r.compile.iter().map(|d| d.rendered.clone()).collect::<Vec<_>>().join("\n")))
+                } else if let Some(cr) = &r.crashed {
+                    Some(("accessor_crashed".to_string(), format!("the runner died while executing this case: {cr}")))
+                } else {
+                    rep.count("accessor_pairs_executed", 1);
+                    judge_exec_part(MENU[p.a].0, p.addr_a, "", &r.records).or_else(|| judge_exec_part(MENU[p.b].0, p.addr_b, "2", &r.records))
+                };
+                if let Some((key, detail)) = viol {
+                    rep.violation(Violation { key, features: vec![format!("kind:pair:{}+{}", MENU[p.a].0, MENU[p.b].0)], input: pipe::Input::single(pair_module(p)), ps: 8, detail, locator: json!({"space": "pairs", "index": i, "ps": 8}) });
+                }
+            }
         }
     }
 }
@@ -239,9 +420,15 @@ pub fn run(tier: &str, only: Option<&Value>) -> i32 {
     let all = cases();
     rep.rule = "E1: #[singleton(A)] on a type and on an enum, and `extern gv: T` with #[address(A)] for T in {u32, *mut u8, [u16; 4], a user struct, pointer to it, an enum, u64}, A over five mappable absolute addresses and four unmappable ones (text only), in decimal / hex / underscore spelling, public and private; extern values without address must be rejected. Oracle X: the data page is mapped at A on the host; struct singleton: null -> None, pointer to object 1 / 2 -> exactly that object; enum singleton: each variant stored at A is returned; extern value: the returned reference is at A. Oracle S: accessor type, visibility, single address literal, level of indirection. distinct = distinct (kind, address, spelling, type)".into();
     let only_i = only.map(|l| l["index"].as_u64().unwrap_or(0) as usize);
-    let idxs: Vec<usize> = match only_i {
-        Some(i) => vec![i],
-        None => (0..all.len()).collect(),
+    let only_space = only.map(|l| l["space"].as_str().unwrap_or("accessors").to_string());
+    if tier == "thorough" && only.is_none() || only_space.as_deref() == Some("pairs") {
+        rep.rule.push_str(". Thorough adds E1 over every ordered pair of accessor declarations in one module (10 x 10 kinds, second set of types S2 / E2 / gv2, addresses (x,y) (y,x) (x,x) (x,x+8), three visibility combinations, both declaration orders), each accessor judged by S and both executed in one process (X)");
+        run_pairs(&mut rep, if only_space.as_deref() == Some("pairs") { only_i } else { None });
+    }
+    let idxs: Vec<usize> = match (only_i, only_space.as_deref()) {
+        (_, Some("pairs")) => vec![],
+        (Some(i), _) => vec![i],
+        (None, _) => (0..all.len()).collect(),
     };
     let mut xcases = vec![];
     let mut xown = vec![];
